@@ -13,6 +13,11 @@ pub struct HxPlan {
 
 fn histex_check(prop: &str, tier: &str, plans: &[HxPlan], owned: &[&str], note: &str) -> i32 {
     let mut run = Run::new(prop, tier, "model_checking");
+    histex_part(&mut run, tier, plans, owned, note);
+    run.finish()
+}
+
+fn histex_part(run: &mut Run, tier: &str, plans: &[HxPlan], owned: &[&str], note: &str) {
     let (mut states, mut trans) = (0u64, 0u64);
     let mut fams = vec![];
     let cap_total: f64 = std::env::var("VERIF_CAP_SECS").ok().and_then(|s| s.parse().ok()).unwrap_or(if tier == "quick" { 45.0 } else { 780.0 });
@@ -21,7 +26,7 @@ fn histex_check(prop: &str, tier: &str, plans: &[HxPlan], owned: &[&str], note: 
     for p in plans {
         let fam = family(p.family);
         let depth = if tier == "quick" { p.quick_depth } else { p.thorough_depth };
-        let st = histex::explore(&mut run, &fam, depth, per, owned);
+        let st = histex::explore(run, &fam, depth, per, owned);
         states += st.states;
         trans += st.transitions;
         if st.depth_completed < depth {
@@ -33,15 +38,14 @@ fn histex_check(prop: &str, tier: &str, plans: &[HxPlan], owned: &[&str], note: 
     run.set("transitions", json!(trans));
     run.set("traces_validated_against_impl", json!(trans));
     run.set("families", json!(fams));
-    run.set("exhaustive", json!(exhaustive));
+    run.set("histories_exhaustive_to_stated_depth", json!(exhaustive));
     run.set("owned_clauses", json!(owned));
-    run.set("rule", json!(note));
+    run.set("histex_rule", json!(note));
     run.assume("the library's own RNG is not controlled: compared outcomes (Ok/Err, Some/None, equality of secrets, decoded shapes) do not depend on random values");
     run.assume("128-bit tag / scalar collisions are treated as impossible");
     if trans == 0 {
         machinery("no transition explored");
     }
-    run.finish()
 }
 
 pub fn dispatch(args: &[String]) -> i32 {
@@ -90,12 +94,26 @@ fn hp(family: &'static str, quick_depth: usize, thorough_depth: usize) -> HxPlan
 pub fn run_check(prop: &str, tier: &str) -> i32 {
     const HX: &str = "breadth-first search over public-API histories from a fixed initial world; every transition executes the real library call on real keys; after each one the master key, user keys and public keys are decoded from their serialised form and compared with the reference model, and the decaps matrix (live keys x policy menu x every public key published so far) is evaluated; states are de-duplicated on the canonical (model, decoded implementation) state; a state is non-trivial/distinct by that key";
     match prop {
+        "C01" => crate::polmat::check(prop, tier, &["C01."]),
+        "C02" => crate::polmat::check(prop, tier, &["C02."]),
         "C03" => histex_check(prop, tier, &[hp("edit", 4, 5)], &["C03."], HX),
         "C04" => histex_check(prop, tier, &[hp("rot", 4, 5)], &["C04."], HX),
         "C05" => histex_check(prop, tier, &[hp("rotdel", 4, 5), hp("rot", 3, 4)], &["C05."], HX),
         "C06" => histex_check(prop, tier, &[hp("dis", 4, 6)], &["C06."], HX),
         "C09" => histex_check(prop, tier, &[hp("args", 3, 4), hp("rotdel", 3, 4), hp("dis", 3, 4), hp("failrot", 3, 4), hp("trace", 3, 4), hp("recaps", 2, 3)], &["C09."], HX),
         "C10" => histex_check(prop, tier, &[hp("failrot", 3, 4), hp("args", 3, 4), hp("trace", 3, 5)], &["C10."], HX),
+        "C11" => {
+            let mut run = Run::new(prop, tier, "model_checking");
+            histex_part(&mut run, tier, &[hp("rot", 3, 4), hp("edit", 3, 4), hp("rt", 3, 4)], &["C11."], HX);
+            crate::polmat::part(&mut run, tier == "thorough", &["C11."]);
+            run.finish()
+        }
+        "C13" => {
+            let mut run = Run::new(prop, tier, "model_checking");
+            histex_part(&mut run, tier, &[hp("rt", 4, 5), hp("edit", 3, 4), hp("trace", 3, 4)], &["C13."], HX);
+            crate::fixtures::report(&mut run);
+            run.finish()
+        }
         "C17" => histex_check(prop, tier, &[hp("trace", 4, 6), hp("rot", 3, 4)], &["C17."], HX),
         "C18" => histex_check(prop, tier, &[hp("recaps", 3, 4)], &["C18."], HX),
         _ => machinery(&format!("no check for {prop}")),
